@@ -1,6 +1,6 @@
 (* C02 — Rendered SQL is one confined boolean expression; user text only in literals.  (scanner-level lemmas; see DESIGN 6/C02) *)
-Require Import Parser PgModel SqlFrag.
-Require PgQuote PgIdent SqlParse SqlSemProof.
+Require Import Parser Render PgModel SqlFrag.
+Require PgQuote PgIdent SqlParse SqlSemProof SqlEndToEnd.
 From Coq Require Import List String Ascii.
 Import ListNotations.
 
@@ -26,6 +26,17 @@ Theorem C02_fragment_sql_is_one_confined_expression : forall (e : Parser.expr) (
   tr e = Some (ts, a) -> pg_parse ts = Some a /\ allowed a = true.
 Proof. intros e ts a T. split; [exact (SqlParse.tr_parses e ts a T)|exact (SqlSemProof.tr_allowed e ts a T)]. Qed.
 
+(* and on the model's renderer, end to end: whenever Render returns a text for a tree of the fragment (field names of at most 63
+   bytes), PostgreSQL's scanner and grammar models read that text as ONE expression built from allowed constructs only *)
+Theorem C02_rendered_fragment_sql_is_one_confined_expression :
+  forall (o2 : oracle2) (e : Parser.expr) (ts : list tok) (a : ast) (s : string),
+  tr e = Some (ts, a) -> text_ok e = true -> names_ok e = true -> render o2 e = Ret (s, None) ->
+  pg_read (str s) = Some a /\ allowed a = true.
+Proof.
+  intros o2 e ts a s T Ok Nm R. split; [exact (SqlEndToEnd.render_reads o2 e ts a s T Ok Nm R)|exact (SqlSemProof.tr_allowed e ts a T)].
+Qed.
+
 Print Assumptions C02_string_value_stays_in_its_literal.
+Print Assumptions C02_rendered_fragment_sql_is_one_confined_expression.
 Print Assumptions C02_fragment_sql_is_one_confined_expression.
 Print Assumptions C02_field_name_is_one_identifier.
